@@ -416,7 +416,12 @@ def first_line_budget(prog, rule, unit="ciffile.c"):
             exprs = [fold]
             if isinstance(fold, dict) and fold.get("k") == "ref":
                 # unconditional or conditional stores of a constant true only add reasons to fold: the computed one decides
-                defs = [d for d in _defs_of(fn, fold.get("name")) if const(d) in (None, 0)]
+                def strengthens(d):
+                    """`fold = fold || X`: can only turn the decision on"""
+                    d = strip(d)
+                    return isinstance(d, dict) and d.get("k") == "bin" and d.get("op") == "||" and \
+                        fold.get("name") in (path(strip(d.get("lhs"))), path(strip(d.get("rhs"))))
+                defs = [d for d in _defs_of(fn, fold.get("name")) if const(d) in (None, 0) and not strengthens(d)]
                 if len(defs) != 1:
                     continue
                 exprs = defs
